@@ -363,8 +363,10 @@ def gen_stream(tier, rng, frontends=("pandas", "numpy", "netcdf", "xarray"), fau
             if axes[ax] is not None and rng.random() < 0.2:
                 axes[ax] = ["0"] * n                      # falsy values: depth 0, equator, Greenwich
         cols = [["v1", col()]] + ([["v2", col()]] if rng.random() < 0.5 else [])
-        idx_kind = rng.choice(["default", "default", "default", "offset", "reversed", "shuffled"])
+        idx_kind = rng.choice(["default", "default", "default", "offset", "reversed", "shuffled", "repeated"])
         index = list(range(n))
+        if idx_kind == "repeated":
+            index = [i // 2 for i in index]            # concatenated frames: row labels are not unique
         if idx_kind == "offset":
             index = [i + 10 for i in index]
         elif idx_kind == "reversed":
